@@ -258,9 +258,22 @@ def gen_fees(rng, n, tier):
     for _ in range(n):
         r = _r.Random(rng.getrandbits(64))
         price = r.choice([1, 1, 3, 7, 1000, 47619047, 47619048])   # 21000*47619048 > 10^12 (user funds)
-        ops = [f"world audit=0 price={price}", "q bals"]
+        BALS = "q bals n0 n1"           # n0 / n1: addresses that hold nothing and have no account record at the start
+        ops = [f"world audit=0 price={price}", BALS]
         tags = set()
-        names = USERS + ["ca1", "adm1", "adm0"]
+        names = USERS + ["ca1", "adm1", "adm0", "n0", "n1"]
+        if r.random() < 0.3:
+            # an address is funded for the first time and, later in the same block, is the receiver of a transfer whose sender
+            # can cover the amount but not the fee (the transfer is applied, then reverted)
+            a, b = r.sample(USERS, 2)
+            nw = r.choice(["n0", "n1"])
+            first = [f"xfer {a} {nw} {r.choice([1, 7, 1000])}"]
+            if r.random() < 0.4:
+                first.append(f"xfer {a} {r.choice(USERS)} 1")
+            first.append(f"xfer {b} {nw} {10 ** 12 - 21000 * price + r.choice([1, 1, 21000 * price])}")
+            ops.append("block " + " | ".join(first))
+            ops.append(BALS)
+            tags.add("new-account-then-fee-failed-credit")
         for _ in range(r.randint(3, 10)):
             txs = []
             for _ in range(r.choice([1, 1, 1, 2, 3, 5])):
@@ -286,7 +299,7 @@ def gen_fees(rng, n, tier):
                 else:
                     txs.append(f"xfer {a} {b} {amt}")
             ops.append("block " + " | ".join(txs))
-            ops.append("q bals")
+            ops.append(BALS)
         hs.append(History(ops, tags=tags | {"fees"}))
     return hs
 
